@@ -467,6 +467,71 @@ def positional_cases():
 positional_cases()
 
 
+def jump_cases():
+    """Jump statements (break / continue / return) inside every clause body that takes statements,
+    at the first and the last position of the clause, inside nested loops: the jump must go where
+    Python says (a `break` in a loop's `else` clause leaves the ENCLOSING loop), so replacing it by
+    `pass` -- or by another jump -- must change the compiled program or the construct must be
+    rejected."""
+    B = (False,)   # control flow does not depend on the experimental-features switch
+
+    def ind(text, n=1):
+        return textwrap.indent(text, "    " * n)
+
+    # clause templates: {J} is the clause body (already a block of lines); every template has
+    # statements after the construct so that break / continue / falling through all differ
+    inner = {
+        "while-else": "k = 0\nwhile k < 2:\n    k += 1\n    z += 1\nelse:\n{J}\nz += 10",
+        "for-else": "for j in range(2):\n    z += 1\nelse:\n{J}\nz += 10",
+        "for-else-with-break": "for j in range(2):\n    if j > y:\n        break\n    z += 1\nelse:\n{J}\nz += 10",
+        "if-body": "if i > y:\n{J}\nz += 10",
+        "elif-body": "if i > y:\n    z += 2\nelif i > 0:\n{J}\nz += 10",
+        "else-body": "if i > y:\n    z += 2\nelse:\n{J}\nz += 10",
+        "for-body": "for j in range(2):\n{J}\n    z += 5\nz += 10",
+        "while-body": "k = 0\nwhile k < 2:\n    k += 1\n{J}\n    z += 5\nz += 10",
+        "if-in-for-body": "for j in range(2):\n    if j > y:\n{J2}\n    z += 5\nz += 10",
+        "nested-loop-else-in-else": "for j in range(2):\n    z += 1\nelse:\n    for m in range(2):\n        z += 3\n    else:\n{J2}\n    z += 7\nz += 10",
+    }
+    outers = {
+        "for": "z = x\nfor i in range(3):\n{S}\n    z += 1000\nreturn z",
+        "while": "z = x\ni = 0\nwhile i < 3:\n    i += 1\n{S}\n    z += 1000\nreturn z",
+        "for-in-for": "z = x\nfor o in range(2):\n    for i in range(3):\n{S2}\n        z += 1000\n    z += 5000\nreturn z",
+    }
+    jumps = ["break", "continue", "return z"]
+    for oname, outer in outers.items():
+        for cname, tmpl in inner.items():
+            for pos in ("first", "last", "only"):
+                def clause(j, depth):
+                    body = {"first": [j, "z += 100"], "last": ["z += 100", j], "only": [j]}[pos]
+                    return ind("\n".join(body), depth)
+
+                def build_(j):
+                    t = tmpl.replace("{J2}", clause(j, 2)).replace("{J}", clause(j, 1))
+                    return outer.replace("{S2}", ind(t, 2)).replace("{S}", ind(t, 1))
+                for j in jumps:
+                    C(f"jump:{oname}/{cname}/{pos}/{j.split()[0]}-vs-pass", build_(j), build_("pass"), exp=B)
+                C(f"jump:{oname}/{cname}/{pos}/break-vs-continue", build_("break"), build_("continue"), exp=B)
+    # `return` in a loop else / clause without an enclosing loop, and inside a nested function
+    for cname in ("while-else", "for-else", "for-else-with-break"):
+        for pos in ("first", "last"):
+            body = {"first": ["return z", "z += 100"], "last": ["z += 100", "return z"]}[pos]
+            bodyp = {"first": ["pass", "z += 100"], "last": ["z += 100", "pass"]}[pos]
+            t = inner[cname].replace("i > y", "x > y")
+            C(f"jump:none/{cname}/{pos}/return-vs-pass", "z = x\n" + t.replace("{J}", ind("\n".join(body))) + "\nreturn z + 1",
+              "z = x\n" + t.replace("{J}", ind("\n".join(bodyp))) + "\nreturn z + 1", exp=B)
+            for j in jumps:
+                fa = "def g(z: int, y: int) -> int:\n    for i in range(3):\n" + ind(inner[cname].replace("{J}", ind(j if pos == "last" else j + "\nz += 100")), 2) + "\n        z += 1000\n    return z\nreturn g(x, y)"
+                fb = "def g(z: int, y: int) -> int:\n    for i in range(3):\n" + ind(inner[cname].replace("{J}", ind("pass" if pos == "last" else "pass\nz += 100")), 2) + "\n        z += 1000\n    return z\nreturn g(x, y)"
+                C(f"jump:nested-fn/{cname}/{pos}/{j.split()[0]}-vs-pass", fa, fb, exp=B)
+    # with-block bodies (modifiers): jumps are rejected there; must stay rejected or take effect
+    for j in ("break", "continue", "return"):
+        C(f"jump:for/with-body/{j}-vs-pass", f"for i in range(2):\n    with control(c):\n        u1(q)\n        {j}\n    u1(d)",
+          "for i in range(2):\n    with control(c):\n        u1(q)\n        pass\n    u1(d)", frame=WMAIN, exp=(True,))
+
+
+jump_cases()
+
+
 def build(case):
     """-> (src_a, src_b)"""
     fr = case["frame"]
@@ -559,8 +624,8 @@ def emit(contexts):
     out = []
     for c in CASES:
         for cx in contexts:
-            if cx != "plain" and c["frame"] is not MAIN:
-                continue
+            if cx != "plain" and (c["frame"] is not MAIN or c["id"].startswith("jump:")):
+                continue  # jump cases bring their own enclosing loops
             cc = dict(c)
             cc["a"], cc["b"] = wrap(c["a"], cx), wrap(c["b"], cx)
             sa, sb = build(cc)
